@@ -47,7 +47,7 @@ class C13(Prop):
         for r in range(nr):
             edit = []
             kind = rng.choice(["none", "none", "rescale", "metric", "lmi", "func_cons", "redundant", "part_cons",
-                               "more_samples"]) if r > 0 else "none"
+                               "more_samples", "late_cons", "metric_replace"]) if r > 0 else "none"
             if kind == "rescale" and init is not None:
                 # replace the initial condition by a rescaled copy of itself
                 o = copy.deepcopy(init_lhs)
@@ -78,6 +78,22 @@ class C13(Prop):
                 edit.append({"op": "cons", "out": "ed_fc%d" % nedit, "lhs": e, "rel": "<=", "rhs": 5e3,
                              "target": b.info["main_f"]})
                 held += [e, "ed_fc%d" % nedit]
+            elif kind == "late_cons" and b.points:
+                # built and evaluated after a solve it was not part of, then added to the model
+                nedit += 1
+                e, c = "ed_le%d" % nedit, "ed_lc%d" % nedit
+                edit.append({"op": "sq", "out": e, "a": rng.choice(b.points)})
+                edit.append({"op": "cons", "out": c, "lhs": e, "rel": "<=", "rhs": 8.5e3})
+                edit.append({"op": "eval", "h": c})
+                edit.append({"op": "attach", "c": c, "target": b.P})
+                held += [c, c, e]
+            elif kind == "metric_replace" and b.info.get("metrics"):
+                nedit += 1
+                e = "ed_mr%d" % nedit
+                edit.append({"op": "edit", "P": b.P, "what": "clear_metrics"})
+                edit.append({"op": "elin", "out": e, "terms": [[b.info["metrics"][0], float("%.3g" % rng.uniform(0.4, 1.6))]]})
+                edit.append({"op": "metric", "P": b.P, "e": e})
+                held.append(e)
             elif kind == "part_cons" and b.points and b.parts:
                 nedit += 1
                 e = "ed_p%d" % nedit
